@@ -297,6 +297,55 @@ theorem C14_member_names_distinct :
     (Generated.Webauthn.structs.all (fun sd => (sd.fields.flatMap (fun f => f.json :: f.aliases)).Nodup)) = true := by
   decide +kernel
 
+/-- **Members are read under their WebAuthn names**: the JSON name of every member of every struct of the source as it
+is now (after `rename` / `rename_all`) is the name the WebAuthn IDL gives it.  A struct that loses its `rename_all` would
+still parse every document — its members all have defaults and unknown members are ignored — but to the all-default
+value: "present" would read like "absent" (seed C14_s2), and the regenerated model would follow the code; this table does not. -/
+theorem C14_member_names_are_the_webauthn_names :
+    Generated.Webauthn.structs.map (fun sd => (sd.name, sd.fields.map (·.json))) =
+      [("CredentialRequestOptions", ["publicKey"]),
+       ("PublicKeyCredentialRequestOptions",
+        ["challenge", "timeout", "rpId", "allowCredentials", "userVerification", "hints", "attestation", "attestationFormats", "extensions"]),
+       ("PublicKeyCredentialDescriptor", ["type", "id", "transports"]),
+       ("AuthenticationExtensionsClientInputs", ["credProps", "prf", "prfAlreadyHashed"]),
+       ("AuthenticationExtensionsPrfInputs", ["eval", "evalByCredential"]),
+       ("AuthenticationExtensionsPrfValues", ["first", "second"]),
+       ("CredentialCreationOptions", ["publicKey"]),
+       ("PublicKeyCredentialCreationOptions",
+        ["rp", "user", "challenge", "pubKeyCredParams", "timeout", "excludeCredentials", "authenticatorSelection", "hints",
+         "attestation", "attestationFormats", "extensions"]),
+       ("PublicKeyCredentialRpEntity", ["id", "name"]),
+       ("PublicKeyCredentialUserEntity", ["id", "displayName", "name"]),
+       ("PublicKeyCredentialParameters", ["type", "alg"]),
+       ("AuthenticatorSelectionCriteria", ["authenticatorAttachment", "residentKey", "requireResidentKey", "userVerification"]),
+       ("PublicKeyCredential<AuthenticatorAttestationResponse>",
+        ["id", "rawId", "type", "response", "authenticatorAttachment", "clientExtensionResults"]),
+       ("AuthenticatorAttestationResponse",
+        ["clientDataJSON", "authenticatorData", "publicKey", "publicKeyAlgorithm", "attestationObject", "transports"]),
+       ("AuthenticationExtensionsClientOutputs", ["credProps", "prf"]),
+       ("CredentialPropertiesOutput", ["rk"]),
+       ("AuthenticationExtensionsPrfOutputs", ["enabled", "results"]),
+       ("PublicKeyCredential<AuthenticatorAssertionResponse>",
+        ["id", "rawId", "type", "response", "authenticatorAttachment", "clientExtensionResults"]),
+       ("AuthenticatorAssertionResponse", ["clientDataJSON", "authenticatorData", "signature", "userHandle", "attestationObject"])] := by
+  decide +kernel
+
+/-- **An unknown enumeration string is ignored, not read as something else**: the value `ignore_unknown` falls back to is,
+for each enumeration of the source as it is now, the default WebAuthn gives the member (`preferred`, `none`), nothing
+(the optional ones), and for the credential type the catch-all `unknown` — never `public-key`, which would turn an
+entry of a type this library does not know into a usable one (seed C14_s3). -/
+theorem C14_unknown_strings_fall_back_to_the_webauthn_defaults :
+    Generated.Webauthn.enums.map (fun e => (e.name, e.dflt)) =
+      [("UserVerificationRequirement", some "preferred"),
+       ("PublicKeyCredentialHints", none),
+       ("AttestationConveyancePreference", some "none"),
+       ("AttestationStatementFormatIdentifiers", some "none"),
+       ("PublicKeyCredentialType", some "unknown"),
+       ("AuthenticatorTransport", none),
+       ("AuthenticatorAttachment", none),
+       ("ResidentKeyRequirement", none)] := by
+  decide +kernel
+
 /-! ### emitted credentials re-parse to an equal value (serialiser model: Model/SerdeSer.lean) -/
 
 /-- the part of the regenerated schema the client's output is made of: `PublicKeyCredential<R>` for both response
